@@ -13,6 +13,8 @@
 //   of this step (response IQs the tracker did not consume), up = isConnected().
 // {"a":"Attempt","r":"authfail|bindfail|userabort|precut|abandon"}: a connection attempt that ends before a session
 // exists (scripted over the real socket, see SrvScript::attempt), or disconnectFromServer() without a connection.
+// A Send with "b":"sendNew": the continuation of that request issues request k<n> (same addressee, fresh id) from
+// inside, whenever and however it runs; every line carries sp = the requests issued that way during the step.
 // Send lines also carry wk ("own": the stanza went out with the caller's id, "new": with another one,
 // "none": without an id) and clash (the id written is empty or that of a request still pending);
 // replies for request i carry the id request i's stanza was really written with.
@@ -30,7 +32,7 @@
 
 namespace {
 
-const QStringList kIds { "i1", "i2", "i3" };
+const QStringList kIds { "i1", "i2", "i3", "k1", "k2" };  // k*: requests issued from inside the continuation of i*
 const QString kOwnBare = QStringLiteral("me@example.org");
 const QString kOwnFull = QStringLiteral("me@example.org/dev1");
 
@@ -100,8 +102,25 @@ struct Env {
         }
     }
 
+    QStringList spawned;      // requests issued from inside continuations during the current step
+    bool destroying = false;  // the client object is going away: a continuation must not touch it
+
+    // body "sendNew": the continuation of request id re-enters the API and issues the child request k<n>
+    void runBody(const QString &id, const QString &to, const QString &body)
+    {
+        if (body != "sendNew" || destroying || !c) {
+            return;
+        }
+        const auto kid = "k" + id.mid(1);
+        if (recs.count(kid)) {
+            return;
+        }
+        spawned << kid;
+        send(kid, to, "q-" + kid, QStringLiteral("none"));
+    }
+
     // callerId: what the application puts into the IQ (may be empty or the id of a pending request)
-    void send(const QString &id, const QString &to, const QString &callerId)
+    void send(const QString &id, const QString &to, const QString &callerId, const QString &body)
     {
         Rec &r = recs[id];
         const auto realId = callerId;
@@ -110,7 +129,7 @@ struct Env {
             QXmppIq iq(QXmppIq::Set);
             iq.setId(realId);
             iq.setTo(toJid(to));
-            c->sendGenericIq(std::move(iq)).then(&ctxObj, [this, &r](QXmppClient::EmptyResult &&res) {
+            c->sendGenericIq(std::move(iq)).then(&ctxObj, [this, &r, id, to, body](QXmppClient::EmptyResult &&res) {
                 ++r.n;
                 if (auto *e = std::get_if<QXmppError>(&res)) {
                     local(r, *e);
@@ -118,10 +137,11 @@ struct Env {
                     r.v = "result";
                     r.got = 0;  // the payload is not handed out by this API
                 }
+                runBody(id, to, body);
             });
             return;
         }
-        auto then = [this, &r](QXmppClient::IqResult &&res) {
+        auto then = [this, &r, id, to, body](QXmppClient::IqResult &&res) {
             ++r.n;
             if (auto *e = std::get_if<QXmppError>(&res)) {
                 local(r, *e);
@@ -130,8 +150,9 @@ struct Env {
                 const auto mk = std::get<QDomElement>(res).firstChildElement("x").attribute("n");
                 r.got = mk.isEmpty() ? -2 : mk.toInt();
             }
+            runBody(id, to, body);
         };
-        if (id == "i3") {
+        if (id == "i3" || id == "k2") {
             QXmppDiscoveryIq iq;
             iq.setType(QXmppIq::Get);
             iq.setQueryType(QXmppDiscoveryIq::InfoQuery);
@@ -218,13 +239,13 @@ void runBehaviour(Ctx &ctx, LoopPeer &peer, const QString &caseId, const QJsonAr
                     callerId = wireOf.value(cid.mid(4), "q-" + cid.mid(4));
                 }
                 e.c->takeSent();
-                e.send(id, s["to"].toString(), callerId);
+                e.send(id, s["to"].toString(), callerId, s["b"].toString("none"));
                 qxvDrain(2);
                 // the id that really went into the stanza: the peer can only answer with that one
                 QString wire;
                 bool seen = false;
                 for (const auto &x : std::as_const(e.c->sent)) {
-                    if (x.startsWith("<iq")) {
+                    if (!seen && x.startsWith("<iq")) {  // the first one: a continuation may have sent more
                         wire = QxvXml(x).el.attribute("id");
                         seen = true;
                     }
@@ -270,6 +291,7 @@ void runBehaviour(Ctx &ctx, LoopPeer &peer, const QString &caseId, const QJsonAr
             ok = e.srv->deliver(xml);
             why = e.srv->why;
         } else if (a == "Destroy") {
+            e.destroying = true;
             e.srv.reset();
             e.c.reset();
             qxvDrain(2);
@@ -282,6 +304,13 @@ void runBehaviour(Ctx &ctx, LoopPeer &peer, const QString &caseId, const QJsonAr
             ctx.emit_({ { "e", "Abort" }, { "at", a }, { "why", why } });
             break;
         }
+        // requests issued from continuations during this step: they carry the fresh ids the body chose
+        for (const auto &kid : std::as_const(e.spawned)) {
+            wireOf[kid] = "q-" + kid;
+            toOf[kid] = toOf.value("i" + kid.mid(1), "none");
+        }
+        ev["sp"] = jarr(e.spawned);
+        e.spawned.clear();
         ev["o"] = e.observe();
         ctx.emit_(ev);
         ctx.out.flush();  // if the next step kills the process this line says how far the execution got
